@@ -132,6 +132,7 @@ func c18Material0() *c18Material {
 		dir, err := os.MkdirTemp("", "verif-c18-")
 		c18Must(err)
 		m.dir = dir
+		proto.OnExit(func() { _ = os.RemoveAll(dir) })
 		r0, err := rsa.GenerateKey(rand.Reader, 1024)
 		c18Must(err)
 		e1, err := ecdsa.GenerateKey(elliptic.P256(), rand.Reader)
